@@ -429,6 +429,7 @@ structure HistQuery where
   beforeT : Option Nat := none
   untilT : Option Nat := none
   topic : String := ""
+  subTopic : String := ""              -- the topic of the subscription queried (set by the handler, not by the caller)
   fromPub : Nat := 0
   afterPub : Nat := 0
   beforePub : Nat := 0
@@ -451,8 +452,10 @@ def histScan (q : HistQuery) : List HistEntry → (fromPub afterPub : Nat) → (
       else if q.untilPub > 0 && untilReached then []
       else
         let untilReached := untilReached || (q.untilPub > 0 && e.pub == q.untilPub)
+        -- the events of an exact-match subscription carry no topic detail: their topic is the subscription's
         let topicOk := q.topic == "" || (match e.details.get? "topic" with
           | some (.str t) => t == q.topic
+          | none => q.subTopic == q.topic
           | _ => false)
         if topicOk then e :: histScan q rest fromPub afterPub untilReached
         else histScan q rest fromPub afterPub untilReached
@@ -633,6 +636,7 @@ def metaProc (r : Realm) (proc : String) (req : Nat) (details : Dict) (args : Li
           match store with
           | none => (mYield req [] [("is_limit_reached", .bool false)], r)
           | some h =>
+            let q := { q with subTopic := ((r.broker.findId id).map (·.topic)).getD "" }
             let es := histScan q h.entries q.fromPub q.afterPub false
             let es := if q.limit > 0 then takeLast q.limit es else es
             let es := if q.reverse then es.reverse else es
@@ -801,13 +805,16 @@ def taskFuel : Nat := 100000
 
 def stepOp (r : Realm) : Op → Realm
   | .join k isLocal details roles cap =>
+    -- session ids are drawn by the router: never the meta session's, never one in use
+    if k == metaKey || r.clients.any (fun c => c.key == k) then r else
     let s : Session := { key := k, details := details, roles := roles, isLocal := isLocal, cap := cap }
     let r := { r with clients := r.clients ++ [s], queues := r.queues ++ [(k, [])] }
     r.addTasks [.metaPub { topic := MetaEventSessionOnJoin, args := [.dict (r.cleanDetails details)] }]
   | .msg k m => r.recvMsg k m
   | .buffer k => { r with clients := r.clients.map (fun c => if c.key == k then { c with buffered := true } else c) }
   | .drop k =>
-    if r.ending.contains k then r
+    if !r.clients.any (fun c => c.key == k) then r      -- only an attached client has a transport to lose
+    else if r.ending.contains k then r
     else { r with tasks := r.tasks ++ [.leave k .lost], ending := r.ending ++ [k] }
   | .stall k => { r with clients := r.clients.map (fun c => if c.key == k then { c with stalled := true } else c) }
   | .resume k => { r with clients := r.clients.map (fun c => if c.key == k then { c with stalled := false } else c),
